@@ -103,6 +103,12 @@ func (pc PrometheusConfig) validate() error {
 		return fmt.Errorf("prometheus URI %q is invalid: %w", pc.URI, err)
 	}
 
+	for _, uri := range pc.Failover {
+		if _, err := url.Parse(uri); err != nil {
+			return fmt.Errorf("prometheus failover URI %q is invalid: %w", uri, err)
+		}
+	}
+
 	if pc.Timeout != "" {
 		if _, err := parseDuration(pc.Timeout); err != nil {
 			return err
